@@ -62,6 +62,7 @@ func (f *Frame) applyCall(c *ssa.CallCommon, fnv Val, args []Val, st *State, pos
 		if fnv.Clo != nil {
 			bind = fnv.Clo.Bind
 		}
+		f.checkCallbackArgs(fn, c, args, st, pos)
 		return f.applyFunction(fn, bind, args, st, pos)
 	}
 	if fnv.Clo != nil {
@@ -77,6 +78,125 @@ func (f *Frame) applyCall(c *ssa.CallCommon, fnv Val, args []Val, st *State, pos
 		return f.havocCall("call of "+types.TypeString(n, nil)+" value", sig, args, st, false)
 	}
 	return f.havocCall("dynamic call of "+c.Value.Name()+" in "+f.fn.Name(), sig, args, st, true)
+}
+
+// checkCallbackArgs: a function passed for a parameter whose behaviour the callee ASSUMES (assume-call contract) must stay
+// within the assumed frame. Closures and functions of the repository are checked by heap name (their inferred or declared
+// modifies set against the assumed one); a callback parameter passed on is checked contract against contract; anything else
+// is recorded as an unchecked assumption.
+func (f *Frame) checkCallbackArgs(fn *ssa.Function, c *ssa.CallCommon, args []Val, st *State, pos token.Pos) {
+	un := f.un
+	eng := un.eng
+	if f.pure || len(fn.Params) != len(c.Args) {
+		return
+	}
+	for i, a := range c.Args {
+		sig, ok := a.Type().Underlying().(*types.Signature)
+		if !ok {
+			continue
+		}
+		cb := eng.callbacks[fn.String()+"."+fn.Params[i].Name()]
+		if cb == nil {
+			continue
+		}
+		allowed := map[string]bool{}
+		if cb.HasMod {
+			eng.declaredMods(cb, nil, sig, allowed)
+		} else if !cb.Pure {
+			allowed["*"] = true
+		}
+		actual := map[string]bool{}
+		what := ""
+		var afn *ssa.Function
+		switch x := a.(type) {
+		case *ssa.MakeClosure:
+			afn = x.Fn.(*ssa.Function)
+		case *ssa.Function:
+			afn = x
+		default:
+			if i < len(args) && args[i].Clo != nil {
+				afn = args[i].Clo.Fn
+			}
+		}
+		if afn != nil {
+			what = afn.String()
+			eng.fnMods(afn, nil, actual)
+		} else if ocb := eng.callbackContract(f, a); ocb != nil {
+			what = ocb.Name
+			if ocb.HasMod {
+				eng.declaredMods(ocb, nil, sig, actual)
+			} else if !ocb.Pure {
+				actual["*"] = true
+			}
+		} else {
+			un.note("function value passed to " + fn.String() + " for " + fn.Params[i].Name() + " is not checked against the assumed callback contract")
+			continue
+		}
+		for _, k := range sortedBoolKeys(actual) {
+			if strings.HasPrefix(k, "new:") || modAllowed(k, allowed) {
+				continue
+			}
+			un.obligeNamed(st, fmt.Sprintf("callback:%s.%s:%s@%s", shortFn(fn.String()), fn.Params[i].Name(), k, un.posOf(pos)), "callback",
+				what+" may modify "+k+", which the callback contract of "+fn.Params[i].Name()+" does not allow", un.posOf(pos), tFalse)
+		}
+	}
+}
+
+// modAllowed: heap name k (or wildcard) is covered by the modifies set `allowed`.
+func modAllowed(k string, allowed map[string]bool) bool {
+	if allowed["*"] || allowed[k] {
+		return true
+	}
+	ghost := strings.HasPrefix(k, "G_")
+	if k == "*" {
+		return false
+	}
+	if strings.HasPrefix(k, "*nonghost") {
+		// a wildcard is covered only by the same or a larger wildcard
+		if allowed["*nonghost"] {
+			return true
+		}
+		if strings.HasPrefix(k, "*nonghost-except:") {
+			have := map[string]bool{}
+			for _, h := range strings.Split(strings.TrimPrefix(k, "*nonghost-except:"), ",") {
+				have[h] = true
+			}
+			for a := range allowed {
+				if strings.HasPrefix(a, "*nonghost-except:") {
+					ok := true
+					for _, h := range strings.Split(strings.TrimPrefix(a, "*nonghost-except:"), ",") {
+						if !have[h] {
+							ok = false
+						}
+					}
+					if ok {
+						return true
+					}
+				}
+			}
+		}
+		return false
+	}
+	if ghost {
+		return false
+	}
+	if allowed["*nonghost"] {
+		return true
+	}
+	for a := range allowed {
+		if strings.HasPrefix(a, "*nonghost-except:") {
+			ex := false
+			for _, h := range strings.Split(strings.TrimPrefix(a, "*nonghost-except:"), ",") {
+				if h == k {
+					ex = true
+				}
+			}
+			if !ex {
+				return true
+			}
+		}
+	}
+	return false
 }
 
 func (f *Frame) onStack(fn *ssa.Function) bool {
@@ -229,6 +349,25 @@ func (f *Frame) havocHeaps(st *State, mods map[string]bool) {
 	}
 	for _, k := range sortedBoolKeys(mods) {
 		if k == "*nonghost" {
+			continue
+		}
+		if strings.HasPrefix(k, "*nonghost-except:") {
+			if mods["*nonghost"] {
+				continue
+			}
+			saved := map[string]Term{}
+			for _, h := range strings.Split(strings.TrimPrefix(k, "*nonghost-except:"), ",") {
+				if s, ok := un.heapSort[h]; ok {
+					saved[h] = un.H(st, h, s)
+				} else if s, ok := un.eng.heapSortHint[h]; ok {
+					un.heapInit(h, s)
+					saved[h] = un.H(st, h, s)
+				}
+			}
+			un.havocAllButGhost(st)
+			for h, v := range saved {
+				st.H[h] = v
+			}
 			continue
 		}
 		if strings.HasPrefix(k, "new:") {
@@ -509,9 +648,26 @@ func shortFn(name string) string {
 func (f *Frame) applyMods(mods []string, env map[string]Val, st *State, old *State) {
 	un := f.un
 	var all []modEntry
+	// except(item): heaps that a `*` leaves alone
+	saved := map[string]Term{}
 	for _, m := range mods {
+		if x, ok := exceptItem(m); ok {
+			for _, me := range f.resolveMod(x, env, old) {
+				if s, ok := un.heapSort[me.heap]; ok {
+					saved[me.heap] = un.H(st, me.heap, s)
+				}
+			}
+		}
+	}
+	for _, m := range mods {
+		if _, ok := exceptItem(m); ok {
+			continue
+		}
 		if strings.TrimSpace(m) == "*" {
 			un.havocAllButGhost(st)
+			for k, v := range saved {
+				st.H[k] = v
+			}
 			continue
 		}
 		all = append(all, f.resolveMod(m, env, old)...)
@@ -564,6 +720,52 @@ func (f *Frame) applyMods(mods []string, env map[string]Val, st *State, old *Sta
 			un.setH(st, me.heap, Store(h, me.ref, v))
 		}
 	}
+}
+
+// modTypeOf: a modifies item may name a type instead of an expression: `T`, `*T`, or `T.field` (the type of that field).
+func (f *Frame) modTypeOf(e Expr, env map[string]Val) types.Type {
+	switch x := e.(type) {
+	case EIdent:
+		if _, ok := env[x.Name]; ok {
+			return nil
+		}
+		return f.lookupType(x.Name)
+	case EUnary:
+		if x.Op == "*" {
+			if t := f.modTypeOf(x.X, env); t != nil {
+				return types.NewPointer(t)
+			}
+		}
+	case EField:
+		if id, ok := x.X.(EIdent); ok {
+			if _, bound := env[id.Name]; bound {
+				return nil
+			}
+			if t := f.lookupType(id.Name + "." + x.Name); t != nil {
+				return t
+			}
+		}
+		if t := f.modTypeOf(x.X, env); t != nil {
+			if T, st := derefStruct(t); st != nil {
+				_ = T
+				for i := 0; i < st.NumFields(); i++ {
+					if st.Field(i).Name() == x.Name {
+						return st.Field(i).Type()
+					}
+				}
+			}
+		}
+	}
+	return nil
+}
+
+// exceptItem recognises `except(item)` in a modifies list.
+func exceptItem(m string) (string, bool) {
+	m = strings.TrimSpace(m)
+	if strings.HasPrefix(m, "except(") && strings.HasSuffix(m, ")") {
+		return m[7 : len(m)-1], true
+	}
+	return "", false
 }
 
 type modEntry struct {
@@ -645,8 +847,11 @@ func (f *Frame) resolveMod(m string, env map[string]Val, st *State) []modEntry {
 		if err != nil {
 			f.fail("modifies %s: %v", m, err)
 		}
-		cv := f.eval(e, &evalCtx{env: env, cur: st, old: st})
-		T, sty := derefStruct(cv.Go)
+		gt := f.modTypeOf(e, env)
+		if gt == nil {
+			gt = f.eval(e, &evalCtx{env: env, cur: st, old: st}).Go
+		}
+		T, sty := derefStruct(gt)
 		if sty == nil {
 			f.fail("modifies %s: not a struct pointer", m)
 		}
@@ -662,12 +867,15 @@ func (f *Frame) resolveMod(m string, env map[string]Val, st *State) []modEntry {
 		if err != nil {
 			f.fail("modifies %s: %v", m, err)
 		}
-		cv := f.eval(e, &evalCtx{env: env, cur: st, old: st})
-		mt, ok := cv.Go.Underlying().(*types.Map)
+		gt := f.modTypeOf(e, env)
+		if gt == nil {
+			gt = f.eval(e, &evalCtx{env: env, cur: st, old: st}).Go
+		}
+		mt, ok := gt.Underlying().(*types.Map)
 		if !ok {
 			f.fail("modifies %s: not a map", m)
 		}
-		dn, vn := un.mapHeaps(cv.Go)
+		dn, vn := un.mapHeaps(gt)
 		ks, vs := un.u.SortOf(mt.Key()), un.u.SortOf(mt.Elem())
 		un.heapInit(dn, ArrSort(SInt, ArrSort(ks, SBool)))
 		un.heapInit(vn, ArrSort(SInt, ArrSort(ks, vs)))
